@@ -122,3 +122,85 @@ example : ((runHistory cfgX (init cfgX) hX).2.map (fun e => (e.step, e.blk.id)))
      (.stalled, "b3")] := by decide
 
 end BstreamVerif.Forkable
+
+namespace BstreamVerif.Forkable
+open BstreamVerif BstreamVerif.ForkDB
+
+/-! ### a finite universe given as a list of blocks -/
+
+theorem ofList_mem (l : List Blk) (id : Id) (b : Blk) (h : ofList l id = some b) : b ∈ l ∧ b.id = id := by
+  unfold ofList at h
+  exact ⟨List.mem_of_find?_eq_some h, by have := List.find?_some h; simpa using this⟩
+
+theorem ofList_of_mem (l : List Blk) (hu : l.all (fun b => l.all (fun c => !(b.id == c.id) || b == c)) = true)
+    (b : Blk) (hb : b ∈ l) : ofList l b.id = some b := by
+  unfold ofList
+  cases hf : l.find? (fun c => c.id == b.id) with
+  | none =>
+    have := List.find?_eq_none.mp hf b hb
+    simp at this
+  | some c =>
+    have hc := List.mem_of_find?_eq_some hf
+    have hid : c.id = b.id := by have := List.find?_some hf; simpa using this
+    simp only [List.all_eq_true, Bool.or_eq_true, Bool.not_eq_true', beq_eq_false_iff_ne, ne_eq, beq_iff_eq] at hu
+    rcases hu c hc b hb with h | h
+    · exact absurd hid h
+    · rw [h]
+
+theorem uokB_sound (l : List Blk) (h : uokB l = true) : UOK (ofList l) := by
+  simp only [uokB, Bool.and_eq_true] at h
+  obtain ⟨⟨h1, h2⟩, h3⟩ := h
+  refine ⟨?_, ?_, ?_⟩
+  · intro id b hb; exact (ofList_mem l id b hb).2
+  · intro id b hb
+    exact wfInB_sound b (List.all_eq_true.mp h1 b (ofList_mem l id b hb).1)
+  · intro b p hb hp
+    have hbm := (ofList_mem l _ b hb).1
+    obtain ⟨hpm, hpid⟩ := ofList_mem l _ p hp
+    simp only [List.all_eq_true, Bool.or_eq_true, Bool.not_eq_true', beq_eq_false_iff_ne, ne_eq, decide_eq_true_eq] at h3
+    rcases h3 b hbm p hpm with g | g
+    · exact absurd hpid.symm g
+    · exact g
+
+def libHistB (cfg : Config) : FState → List Blk → Bool
+  | _, [] => true
+  | s, b :: r => libDeclB s.db b && libHistB cfg (processBlock cfg s b none).1 r
+
+theorem libHistB_sound (cfg : Config) (h : List Blk) (s : FState) (hb : libHistB cfg s h = true) :
+    Props.C01.LibHistOK cfg s h := by
+  induction h generalizing s with
+  | nil => trivial
+  | cons b r ih =>
+    simp only [libHistB, Bool.and_eq_true] at hb
+    exact ⟨libDeclB_sound _ b hb.1, ih _ hb.2⟩
+
+/-! Non-vacuity of `history_discipline_consistent`: the history `hX` above (fork, undo/redo switch, duplicate, orphan,
+    two LIB moves) is drawn from the consistent universe `uX`; every hypothesis is discharged by kernel evaluation. -/
+private def uX : List Blk :=
+  [ ⟨"a2", "r", 2, 1⟩, ⟨"a3", "a2", 3, 1⟩, ⟨"b3", "a2", 3, 1⟩, ⟨"b4", "b3", 4, 1⟩,
+    ⟨"a4", "a3", 4, 1⟩, ⟨"a5", "a4", 5, 2⟩, ⟨"z9", "z8", 9, 2⟩, ⟨"a6", "a5", 6, 3⟩ ]
+
+example : ∃ P', (⟨"r", []⟩ : CS).run (runHistory cfgX (init cfgX) hX).2 =
+    some ⟨(runHistory cfgX (init cfgX) hX).1.db.libRef.id, P'⟩ := by
+  have hU : UOK (ofList uX) := uokB_sound uX (by decide)
+  have hI := Props.C01.init_inv cfgX ⟨"r", 1⟩ (by decide) rfl
+  have hJ : Inv2 (ofList uX) ["r"] (init cfgX).db := by
+    apply Props.C01.init_inv2 cfgX ⟨"r", 1⟩ rfl
+    · intro b hb hp
+      have hm := (ofList_mem uX _ b hb).1
+      have : ∀ x ∈ uX, x.parent = "r" → 1 < x.num := by decide
+      exact this b hm hp
+    · intro b hb hid
+      have hm := (ofList_mem uX _ b hb).1
+      have : ∀ x ∈ uX, x.id = "r" → x.num = 1 := by decide
+      exact this b hm hid
+  have hin : ∀ b ∈ hX, ofList uX b.id = some b := by
+    intro b hb
+    apply ofList_of_mem uX (by decide)
+    have : ∀ x ∈ hX, x ∈ uX := by decide
+    exact this b hb
+  obtain ⟨P', h1, _⟩ := Props.C01.history_discipline_consistent cfgX (by decide) (by decide) (by decide)
+    (ofList uX) hU hX ["r"] (init cfgX) [] hI hJ hin (libHistB_sound cfgX hX _ (by decide))
+  exact ⟨P', h1⟩
+
+end BstreamVerif.Forkable
